@@ -16,6 +16,13 @@ use std::process::{Child, ChildStdin, Command, Stdio};
 use std::sync::mpsc::{channel, RecvTimeoutError, Sender};
 use std::time::{Duration, Instant};
 
+/// Print a line to stdout; a closed pipe must not turn a verdict into a panic.
+macro_rules! out {
+    ($($arg:tt)*) => {{
+        let _ = writeln!(std::io::stdout(), $($arg)*);
+    }};
+}
+
 const MAX_INCIDENTS_PER_BLOCK: usize = 12;
 const STEP_CASE_TIMEOUT_S: u64 = 15;
 const HANG_CONFIRM_TIMEOUT_S: u64 = 60;
@@ -608,11 +615,11 @@ pub fn run(prop: &'static str, tier: Tier, seed: u64) -> i32 {
         }
         match agg.known.get(&idx) {
             Some((n, w)) => {
-                println!("KNOWN-FINDING: property={} {} ({} cases, e.g. `{}`)", prop, f.what, n, show(w));
+                out!("KNOWN-FINDING: property={} {} ({} cases, e.g. `{}`)", prop, f.what, n, show(w));
                 known_json.push(json!({"what": f.what, "rule": f.rule, "hits": n, "first_witness": w}));
             }
             None => {
-                println!("NOTE: property={} listed finding not hit in this run: {}", prop, f.what);
+                out!("NOTE: property={} listed finding not hit in this run: {}", prop, f.what);
                 known_json.push(json!({"what": f.what, "rule": f.rule, "hits": 0}));
             }
         }
@@ -633,9 +640,9 @@ pub fn run(prop: &'static str, tier: Tier, seed: u64) -> i32 {
             e.0 += 1;
         }
         for (k, (n, w, d)) in &groups {
-            println!("TRIAGE {:>7} {}  e.g. `{}`  {}", n, k, show(w), show(&d.chars().take(160).collect::<String>()));
+            out!("TRIAGE {:>7} {}  e.g. `{}`  {}", n, k, show(w), show(&d.chars().take(160).collect::<String>()));
         }
-        println!("TRIAGE total uncovered {} (collected {})", agg.fail_total, agg.fails.len());
+        out!("TRIAGE total uncovered {} (collected {})", agg.fail_total, agg.fails.len());
         return 1;
     }
     let replay_dir = format!("{}/replays", crate::verif_root());
@@ -679,10 +686,10 @@ pub fn run(prop: &'static str, tier: Tier, seed: u64) -> i32 {
             );
             return 2;
         }
-        println!("VIOLATION property={} replay={}", prop, path);
-        println!("  rule={} locus={}", f.rule, f.locus);
-        println!("  witness=`{}`", show(&f.witness));
-        println!("  detail={}", f.detail);
+        out!("VIOLATION property={} replay={}", prop, path);
+        out!("  rule={} locus={}", f.rule, f.locus);
+        out!("  witness=`{}`", show(&f.witness));
+        out!("  detail={}", f.detail);
         reported.push(json!({"rule": f.rule, "witness": f.witness, "locus": f.locus, "detail": f.detail, "replay": path}));
         exit = 1;
     }
@@ -746,7 +753,7 @@ pub fn run(prop: &'static str, tier: Tier, seed: u64) -> i32 {
         eprintln!("machinery error: cannot write {}", epath);
         return 2;
     }
-    println!(
+    out!(
         "{} {}: {} cases in {} blocks, {} non-trivial ({} distinct), {} distinct outcomes, {} known-finding hits, {} new failures, {:.1} s{}",
         prop,
         tier.name(),
